@@ -14,6 +14,7 @@ declaration's identifier.
   types    EXTENDS chains of length <= 3, component at each level, type/class objects,
            scalar / array-element / nested-component access, inside and outside the module
   include  a declaration brought in by INCLUDE at module or procedure level
+  nested_close  a BLOCK re-declaring a host name, with 1-3 nested constructs closing directly before END BLOCK (or not)
   constructs  ASSOCIATE names and member access through them, for nine selector shapes (variable, component, array
            element, nested / call subscripts, two subscripted levels, whole object), one or two bindings
   types_files  a three-level EXTENDS chain over three files and a user file, indexed in every
@@ -524,7 +525,55 @@ def build_constructs(p):
     return ws
 
 
-BUILDERS = {"shadow": build_shadow, "usegraph": build_usegraph, "types": build_types, "include": build_include,
+# ================================================================ nested_close
+# Which scope a line belongs to when several scopes close back to back: a BLOCK that re-declares a name of its host
+# contains 1-3 nested constructs whose END statements directly precede END BLOCK (or not); the uses after END BLOCK
+# belong to the host again.
+NC_KINDS = {"do": ("do i = 1, 2", "end do"), "if": ("if (n > 0) then", "end if"), "associate": ("associate (z => n)", "end associate"),
+            "block": ("block", "end block"), "select": ("select case (n)\n@case (1)", "end select")}
+
+
+def nested_close_cases():
+    kinds = list(NC_KINDS)
+    for depth in (1, 2, 3):
+        for combo in itertools.product(kinds, repeat=depth):
+            if depth == 3 and len(set(combo)) < 2:
+                continue
+            for trailing in (False, True):
+                yield (combo, trailing)
+
+
+def build_nested_close(p):
+    combo, trailing = p
+    ws = Workspace()
+    f = ws.file("nc.f90")
+    f.add("subroutine ncs(n)")
+    f.add("  implicit none")
+    f.add("  integer :: n, i0, i1, i2")
+    f.add("  integer :: ", D("k", "host::k"))
+    f.add("  ", U("k", "host::k"), " = 1")
+    f.add("  block")
+    f.add("    integer :: ", D("k", "blk::k"))
+    f.add("    ", U("k", "blk::k"), " = 2")
+    ind = "    "
+    for lvl, kd in enumerate(combo):
+        for part in NC_KINDS[kd][0].split("\n"):
+            f.add(ind + part.replace("@", "").replace("do i =", f"do i{lvl} ="))
+        ind += "  "
+        f.add(ind, U("k", "blk::k"), " = ", U("k", "blk::k"), " + 1")
+    for kd in reversed(combo):
+        ind = ind[:-2]
+        f.add(ind + NC_KINDS[kd][1])
+    if trailing:
+        f.add("    ", U("k", "blk::k"), " = 3")
+    f.add("  end block")
+    f.add("  ", U("k", "host::k"), " = ", U("k", "host::k"), " + n")
+    f.add("  if (n > 1) ", U("k", "host::k"), " = 0")
+    f.add("end subroutine ncs")
+    return ws
+
+
+BUILDERS = {"nested_close": build_nested_close, "shadow": build_shadow, "usegraph": build_usegraph, "types": build_types, "include": build_include,
             "types_files": build_types_files, "constructs": build_constructs}
 
 
@@ -689,6 +738,8 @@ def _features(fam, p):
         return {"shadow": ",".join(str(x) for x in p)}
     if fam == "constructs":
         return {"selector": p[0], "where": p[1], "two_bindings": p[2]}
+    if fam == "nested_close":
+        return {"inner": ",".join(p[0]), "trailing_statement": p[1]}
     return {"params": repr(p)}
 
 
@@ -703,6 +754,8 @@ def jobs(quick):
         yield ("types_files", p)
     for p in constructs_cases():
         yield ("constructs", p)
+    for p in nested_close_cases():
+        yield ("nested_close", p)
     for p in usegraph_cases(2, reduced=0):
         yield ("usegraph", p)
     for p in usegraph_cases(3, reduced=(1 if quick else 2)):
